@@ -1,7 +1,8 @@
 (* C02 - the truth log is append-only; read-only, dry-run and no-op capabilities never write.
    Statements only; proofs are in Proofs/ContStoreProofs.v and Proofs/LogProofs.v. *)
 From RipV Require Import Base.Prelude Model.Frames Model.Log Model.ContStore Model.LogBytes
-  Proofs.LogProofs Proofs.ContStoreProofs Proofs.LogBytesProofs Gen.LogOpen.
+  Model.CapEffects Proofs.LogProofs Proofs.ContStoreProofs Proofs.LogBytesProofs Proofs.CapEffectsProofs
+  Gen.LogOpen Gen.Effects.
 
 (* one micro-step of any actor running ANY program (well-formed or not) in ANY state leaves the
    log as it was or adds exactly one frame at the end *)
@@ -56,6 +57,35 @@ Theorem c02_unknown_thread_adds_nothing : forall st c t ar rest,
   s_log (exec (MTarget c :: locked_append t ar ++ rest) st) = s_log st.
 Proof. exact unknown_thread_append_silent. Qed.
 Print Assumptions c02_unknown_thread_adds_nothing.
+
+(* ---------- T1: the call graph of the source, regenerated on every run (Gen/Effects.v) ----------
+   every row of the generated table "capability -> can its function reach self.event_log.append"
+   says what the model's table says ... *)
+Theorem c02_generated_call_graph_agrees : forall (cp : cap) (b : bool),
+  In (cp, b) gen_cap_reaches_append -> b = cap_can_append cp.
+Proof. exact (effects_agree_rows gen_cap_reaches_append (proj1 (andb_prop _ _ (proj1 (andb_prop _ _ gen_effects_ok))))). Qed.
+Print Assumptions c02_generated_call_graph_agrees.
+
+(* ... so a capability from which the source cannot reach an append adds nothing, whatever its
+   arguments, the thread id and the store state *)
+Theorem c02_unreachable_capabilities_add_nothing : forall (cp : cap),
+  In (cp, false) gen_cap_reaches_append ->
+  forall (c : N) (f : cfacts) (st : state), s_log (exec (cap_prog cp c f) st) = s_log st.
+Proof. exact (unreachable_caps_silent gen_cap_reaches_append (proj1 (andb_prop _ _ (proj1 (andb_prop _ _ gen_effects_ok))))). Qed.
+Print Assumptions c02_unreachable_capabilities_add_nothing.
+
+(* the same for the thread routes of the HTTP router (handler -> store methods it calls) *)
+Theorem c02_generated_routes_agree : forall (i : N) (b : bool),
+  In (i, b) gen_route_reaches_append -> exists cp, route_cap i = Some cp /\ b = cap_can_append cp.
+Proof. exact (routes_agree_rows gen_route_reaches_append gen_routes_ok). Qed.
+Print Assumptions c02_generated_routes_agree.
+
+(* non-vacuity: compaction_status_v1 cannot reach an append, compaction_auto_schedule_v1 can;
+   GET /threads/{id}/events cannot, POST .../compaction-auto-schedule can *)
+Example c02_call_graph_nontrivial :
+  has_cap_row gen_cap_reaches_append 5 false = true /\ has_cap_row gen_cap_reaches_append 15 true = true
+  /\ has_route_row gen_route_reaches_append 6 false = true /\ has_route_row gen_route_reaches_append 13 true = true.
+Proof. exact (conj eq_refl (conj eq_refl (conj eq_refl eq_refl))). Qed.
 
 (* ---------- byte level: what is IN THE FILE after every write(2) of EventLog::append ----------
    BufWriter rule (Model/LogBytes.v): bytes reach the file when the buffer is flushed or when one
